@@ -9,6 +9,7 @@ var Registry = map[string]func() *vlib.Plan{
 	"C03": C03Plan,
 	"C04": C04Plan,
 	"C06": C06Plan,
+	"C07": C07Plan,
 	"C08": C08Plan,
 	"C09": C09Plan,
 	"C10": C10Plan,
